@@ -349,6 +349,9 @@ Definition o01_step (prev : mgr) (s : ostep) : bool :=
           the entry of the live connection *)
        | OAccept a => if is_some (pget (m_peers prev) a) then (peer_spawns (s_sp s) =? 0) && mgr_eqb prev (s_state s)
                       else peer_spawns (s_sp s) <=? 1
+       (* a piece whose connection ended (its data failed the hash, or anything else) becomes downloadable again: no
+          reservation outlives its holders *)
+       | OCmd (CKill _) => inv_count next
        | _ => true
        end
   end.
